@@ -54,7 +54,7 @@ Definition kn_pair (eps0 u1 u2 : R) : R * R :=
 Lemma kn_candidate_run (k eps0 u1 u2 : R) s :
   kn_candidate k eps0 (u1 :: u2 :: s) =
   let pr := kn_pair eps0 u1 u2 in
-  let omc := (1 - fst pr) / (fst pr * k) in
+  let omc := nmin ((1 - fst pr) / (fst pr * k)) 2 in
   Some ((fst pr, omc, fst pr * (omc * (2 - omc)) / (1 + snd pr)), s).
 Proof.
   unfold kn_candidate, kn_pair, bernoulli2, bernoulli, reciprocal, uniform, bind, draw, ret.
@@ -97,6 +97,10 @@ Proof.
       + rewrite <- sqrt_1. apply sqrt_le_1; nra. }
   destruct Hr as [Hr Hsq]. rewrite Hsq.
   pose proof (kn_kinematics k eps0 _ Hk He0 He0k Hr) as [Ho Hp]. cbv zeta in *.
+  (* the bound min(., 2) of the repaired code is the identity in exact arithmetic *)
+  set (X := (1 - fst (kn_pair eps0 u1 u2)) / (fst (kn_pair eps0 u1 u2) * k)) in *.
+  assert (Hid : nmin X 2 = X) by (unfold nmin; numR; destruct (Rltb_spec 2 X); [lra|reflexivity]).
+  rewrite Hid.
   repeat split; try lra.
 Qed.
 
